@@ -202,11 +202,11 @@ Lemma submit_wait : forall run hold p c o,
   /\ snd (submit run hold p c o) = o.
 Proof. intros run hold p c o H. unfold submit. rewrite H. split; reflexivity. Qed.
 
-Lemma resume_facts : forall run c k o x w,
+Lemma resume_facts : forall run rq c k o x w,
   CI c -> waitq c = x :: w -> fdone c (s_prev x) = true ->
-  CI (fst (fst (resume run c k o))) /\ cprwait (snd (fst (resume run c k o))) = false.
+  CI (fst (fst (resume run rq c k o))) /\ cprwait (snd (fst (resume run rq c k o))) = false.
 Proof.
-  intros run c k o x w I W F. unfold resume. rewrite W.
+  intros run rq c k o x w I W F. unfold resume. rewrite W.
   pose proof (pop_CI run c x w o I W F) as H.
   destruct (start_sec run x _ o) as [c' o']. cbn [fst snd] in *. split; [exact H|].
   rewrite after_start_wait. reflexivity.
@@ -216,10 +216,10 @@ Lemma submit_cpr_wait : forall s p c' o',
   CI (ch s) ->
   (cprwait (cp s) = true -> exists x w, waitq (ch s) = x :: w /\ fdone (ch s) (s_prev x) = true) ->
   submit (running (en s)) (cpr_pending (cp s)) p (ch s) (out s) = (c', o') ->
-  cprwait (submit_cpr (running (en s)) p (ch s) (cp s)) = true ->
+  forall rq, cprwait (submit_cpr rq p (ch s) (cp s)) = true ->
   exists x w, waitq c' = x :: w /\ fdone c' (s_prev x) = true.
 Proof.
-  intros s p c' o' I Wt E. unfold submit_cpr. destruct (fdone (ch s) (lastf (ch s))) eqn:F.
+  intros s p c' o' I Wt E rq. unfold submit_cpr. destruct (fdone (ch s) (lastf (ch s))) eqn:F.
   - destruct (idle_when_last_done (ch s) I F) as [W _].
     destruct (cpr_pending (cp s)) eqn:P.
     + intros _. destruct (submit_wait (running (en s)) true p (ch s) (out s)) as [H1 _].
@@ -274,7 +274,7 @@ Proof.
   - (* ExtEnd *)
     destruct (active (ch s)) as [own|] eqn:A; [|split; assumption]. split; [now apply extend_CI|].
     cbn [cp ch waitq]. unfold request.
-    destruct (cpron (cp s) && running (en s) && (cprsup (cp s) || Nat.eqb (cprq (cp s)) 0)); cbn [cprwait];
+    destruct (cpron (cp s) && negb (isdone (en s)) && (cprsup (cp s) || Nat.eqb (cprq (cp s)) 0)); cbn [cprwait];
       intros Hw; destruct (Wt Hw) as [x [w [W F]]]; exists x, w; (split; [assumption|]);
       (eapply fdone_mono; [|exact F]); cbn [donef]; intros d Hd; right; exact Hd.
   - (* Wake *)
@@ -293,20 +293,21 @@ Proof.
     destruct (app (en s) && cpron (cp s) && negb (Nat.eqb (cprq (cp s)) 0) && _); [|split; assumption].
     destruct (cprwait (cp s) && _) eqn:G.
     + apply andb_true_iff in G. destruct G as [G _]. destruct (Wt G) as [x [w [W F]]].
-      match goal with |- context [resume ?r ?c ?k ?o] =>
-        pose proof (resume_facts r c k o x w I W F) as [H1 H2]; destruct (resume r c k o) as [[c' k'] o'] end.
+      match goal with |- context [resume ?r ?q ?c ?k ?o] =>
+        pose proof (resume_facts r q c k o x w I W F) as [H1 H2]; destruct (resume r q c k o) as [[c' k'] o'] end.
       cbn [fst snd] in *. split; [exact H1|]. cbn [cp]. rewrite H2. discriminate.
     + split; [assumption|]. exact Wt.
   - (* CprTimeout *)
     destruct (negb (Nat.eqb (cprq (cp s)) 0) && _); [|split; assumption].
     destruct (cprwait (cp s)) eqn:G.
     + destruct (Wt eq_refl) as [x [w [W F]]].
-      match goal with |- context [resume ?r ?c ?k ?o] =>
-        pose proof (resume_facts r c k o x w I W F) as [H1 H2]; destruct (resume r c k o) as [[c' k'] o'] end.
+      match goal with |- context [resume ?r ?q ?c ?k ?o] =>
+        pose proof (resume_facts r q c k o x w I W F) as [H1 H2]; destruct (resume r q c k o) as [[c' k'] o'] end.
       cbn [fst snd] in *. split; [exact H1|]. cbn [cp]. rewrite H2. discriminate.
     + split; [assumption|]. cbn [cp cprwait]. intros Hc. discriminate.
   - destruct (patched (en s)); split; assumption.
   - destruct (patched (en s)); split; assumption.
+  - destruct (app (en s) && running (en s) && negb (isdone (en s))); split; assumption.
 Qed.
 
 Lemma SI_init : forall c r, SI (init2 c r).
